@@ -18,14 +18,15 @@ from concurrent.futures import ThreadPoolExecutor
 from dataclasses import dataclass, field
 from pathlib import Path
 
-ROOT = Path('/verif')
+ROOT = Path(os.environ.get('VERIF_ROOT') or Path(__file__).resolve().parent.parent)
 REPO = Path(os.environ.get('VERIF_REPO', '/repo'))
 COQ = ROOT / 'coq'
 PY = '/venv/bin/python'
 NCPU = int(os.environ.get('VERIF_JOBS', '16'))
 
+PYSHIM = ROOT / 'native' / 'pyshim'
 IMPL_ENV = {
-    'PYTHONPATH': f'{ROOT}/native/pyshim:{REPO}:{ROOT}',
+    'PYTHONPATH': f'{PYSHIM}:{REPO}:{ROOT}',
     'PYTHONHASHSEED': '0',
     'PIP_NO_INDEX': '1',
     'VAULTAH_REPLICAT_VERIF': '1',
@@ -418,10 +419,13 @@ def build_native():
 
 # --------------------------------------------------------------------------- known findings
 def load_known():
+    out = []
     p = ROOT / 'known_findings.json'
-    if not p.exists():
-        return []
-    return json.loads(p.read_text())['findings']
+    if p.exists():
+        out += json.loads(p.read_text())['findings']
+    for q in sorted((ROOT / 'known_findings.d').glob('*.json')):
+        out += json.loads(q.read_text())['findings']
+    return out
 
 
 def match_known(pid, signature, known):
@@ -526,7 +530,7 @@ def main(argv):
     coverage = {
         'obligations': proof['obligations'],
         'discharged': proof['discharged'],
-        'checker_cmd': f'make -C /verif/coq Props/{pid}.vo && coqc -Q . Replicat Props/{pid}.v  (Coq 8.16.1, full .vo build, Print Assumptions per theorem)',
+        'checker_cmd': f'make -C {COQ} Props/{pid}.vo && coqc -Q . Replicat Props/{pid}.v  (Coq 8.16.1, full .vo build, Print Assumptions per theorem)',
         'trusted_base': reg.get('trusted_base', []) + [f'Print Assumptions {t}: ' + (', '.join(a) if a else 'Closed under the global context')
                                                        for t, a in proof.get('axioms_by_theorem', {}).items()],
         'theorems': proof.get('printed', []),
